@@ -242,6 +242,9 @@ def _cat():
     ca = float(np.sqrt(3. / 8.))
     cat["omega"] = {"lattice": hexc(ca), "basis": [[[0., 0., 0.], [1. / 3, 2. / 3, 0.5], [2. / 3, 1. / 3, 0.5]]]}
     cat["romega"] = {"lattice": hexc(ca), "basis": [[[0., 0., 0.], [1. / 3, 2. / 3, 0.55], [2. / 3, 1. / 3, 0.45]]]}
+    # same structures with the two-site Wyckoff set listed first (site index != Wyckoff index)
+    cat["omegaB"] = {"lattice": hexc(ca), "basis": [[[1. / 3, 2. / 3, 0.5], [2. / 3, 1. / 3, 0.5], [0., 0., 0.]]]}
+    cat["romegaB"] = {"lattice": hexc(ca), "basis": [[[1. / 3, 2. / 3, 0.55], [2. / 3, 1. / 3, 0.45], [0., 0., 0.]]]}
     cat["square"] = {"lattice": np.eye(2).tolist(), "basis": [[[0., 0.]]]}
     cat["tria"] = {"lattice": [[0.5, 0.5], [-S3 / 2, S3 / 2]], "basis": [[[0., 0.]]]}
     cat["honeycomb"] = {"lattice": [[0.5, 0.5], [-S3 / 2, S3 / 2]], "basis": [[[2. / 3, 1. / 3], [1. / 3, 2. / 3]]]}
